@@ -113,8 +113,8 @@ def c_lcase(cin, out):
         fname, rk = key.split('|', 1)
         idx = [i for i, f in enumerate(files) if f['name'] == fname]
         viol.append('(%d%%nat, %s, %d%%nat)' % (idx[0] if idx else 99, c_rule(rk), n))
-    return '(mkL %s %s %s %s %s %d%%nat)' % (
-        c_caps(out),
+    return '(mkL %s %s %s %s %s %s %d%%nat)' % (
+        c_caps(out), clist(c_rule(d) for d in (cin.get('disabled') or [])),
         clist('(mkLF %s %d%%nat)' % (c_file(kind_of(f)), KINDS.index(kind_of(f))) for f in files),
         INTERN.name('Or', 'list (rule_id * list nat)',
                     clist('(%s, %s)' % (c_rule(k), clist('%d%%nat' % out['fn'][kd]['reports'].get(k, 0) for kd in KINDS)) for k in oracle)),
@@ -212,12 +212,21 @@ def run(ctx):
           'Definition P1 := Eval vm_compute in failing pcase_agrees 0 p_cases.',
           'Definition P2 := Eval vm_compute in failing pcase_meets_spec 0 p_cases.',
           'Print F1. Print F2. Print L1. Print L2. Print P1. Print P2.']
+    # self-test of the glue: a perturbed observation must be flagged
+    if lint_ok:
+        pr = json.loads(json.dumps(lint_ok[0]))
+        pr['out']['rules_skipped'] += 1
+        v += ['Definition S1 := Eval vm_compute in (failing lcase_agrees 0 [%s], failing skipped_is_count 0 [%s]).'
+              % (c_lcase(pr['in'], pr['out']), c_lcase(pr['in'], pr['out'])), 'Print S1.']
     rc, cout = vlib.coq_eval(ctx, 'Cases_C19', '\n'.join(head + INTERN.defs + v), timeout=2400)
     if rc != 0:
         raise RuntimeError('case evaluation failed:\n' + cout[-3000:])
     phase('coq_eval')
     g = lambda m: vlib.parse_nat_list(cout, m) or []
     f1, f2, l1, l2, p1, p2 = g('F1'), g('F2'), g('L1'), g('L2'), g('P1'), g('P2')
+    m_self = re.search(r'S1\s*=\s*\(([^)]*)\)', cout, re.S)
+    if lint_ok and (not m_self or re.findall(r'\d+', m_self.group(1)) != ['0', '0']):
+        raise RuntimeError('self-test failed: a perturbed rules_skipped was not flagged by Check.C19Check')
 
     # ---- the property evaluated in python on the implementation's own outputs ----------------------------------
     bad = []     # (record, kind of failure, detail)
@@ -250,6 +259,11 @@ def run(ctx):
             for rule, needs in NEEDS.items():
                 c, t = rule.split('/', 1)
                 nviol = (out['violations'] or {}).get(f['name'] + '|' + rule, 0)
+                if rule in (cin.get('disabled') or []):
+                    listed = any(n['category'] == c and n['title'] == t for n in notices)
+                    if nviol or listed:
+                        bad.append((r, 'disabled-rule-reported-or-listed', {'rule': rule, 'file': f, 'violations': nviol, 'listed': listed}))
+                    continue
                 unmet = [(sev, nd) for sev, nd in needs if need_unmet(nd, out, kind)]
                 for sev, nd in unmet:
                     listed = any(n['category'] == c and n['title'] == t and n['severity'] == sev for n in notices)
@@ -268,7 +282,8 @@ def run(ctx):
     # one file vs three copies
     by_target = {}
     for r in lint_ok:
-        by_target.setdefault((tkey(r['in']['target']), r['stream']), {})[r['set']] = r
+        if not r['in'].get('disabled'):
+            by_target.setdefault((tkey(r['in']['target']), r['stream']), {})[r['set']] = r
     copies_checked = 0
     for (tk, _), sets in by_target.items():
         for one, many in (('v0x1', 'v0x3'), ('v1x1', 'v1x3')):
@@ -305,7 +320,8 @@ def run(ctx):
         vlib.violation(ctx, {'kind': kind, 'case': r['in'], 'detail': detail,
                              'observed': {k: r['out'].get(k) for k in ('builtins', 'future_keywords', 'features', 'violations', 'notices', 'rules_skipped', 'lint_err', 'config_err')}},
                        signature={'kind': kind, 'key': json.dumps([r['in']['target'], [kind_of(f) for f in r['in']['files']],
-                                                                  detail.get('rule') if isinstance(detail, dict) else None], sort_keys=True)})
+                                                                  detail.get('rule') if isinstance(detail, dict) else None] +
+                                                                 ([r['in']['disabled']] if r['in'].get('disabled') else []), sort_keys=True)})
         if len(ctx.violations) >= 4:
             break
     spec_lists = ((f2, [x[0] for x in fcases], 'Check.C19Check.fcase_meets_needs (notices = unmet needs)'),
